@@ -188,3 +188,261 @@ Proof.
   unfold blk_by. destruct (has tph n_xfby); [|intro H; injection H as <-; auto 10].
   unfold rm_by. destruct (u_by (unt s)); simpl; [|discriminate]. intro H. injection H as <-. auto 10.
 Qed.
+
+(* ---- Forwarded -------------------------------------------------------------------- *)
+Lemma fwd_pair_no_malformed acc p h : fwd_pair acc p <> Malformed h.
+Proof.
+  unfold fwd_pair. destruct (negb (truthy (lower_latin1 p))); [discriminate|].
+  destruct (partition (lower_latin1 p) [c_eq]) as [[token equals] value].
+  destruct (negb (beqb equals [c_eq])); [discriminate|].
+  destruct (negb (beqb (strip token) token)); [discriminate|].
+  destruct (negb (beqb (strip value) value)); [discriminate|].
+  destruct (undquote_cases value) as [[u H]|H];
+    destruct (beqb token s_by); [rewrite H; discriminate| |rewrite H; discriminate|];
+    (destruct (beqb token s_for); [rewrite H; discriminate|]);
+    (destruct (beqb token s_host); [rewrite H; discriminate|]);
+    (destruct (beqb token s_proto); [rewrite H; discriminate|]); discriminate.
+Qed.
+
+Lemma foldM_no_malformed {A B} (f : A -> B -> result A) l a :
+  (forall a b h, f a b <> Malformed h) -> forall h, foldM f a l <> Malformed h.
+Proof.
+  intro Hf. revert a. induction l as [|x l IH]; intros a h; simpl; [discriminate|].
+  destruct (f a x) eqn:E; simpl; try discriminate; auto.
+  intro H. injection H as ->. eapply Hf; eauto.
+Qed.
+
+Lemma fwd_element_no_malformed el h : fwd_element el <> Malformed h.
+Proof. apply foldM_no_malformed. apply fwd_pair_no_malformed. Qed.
+
+(* for proxy in proxies[::-1]: the oldest entry that has the field wins *)
+Lemma fwd_fill_fold l c0 h0 p0 :
+  fold_left fwd_fill (rev l) (c0, h0, p0) =
+  (match first_nonempty (map f_for l) with [] => c0 | x => Some x end,
+   match first_nonempty (map f_host l) with [] => h0 | x => x end,
+   match first_nonempty (map f_proto l) with [] => p0 | x => x end).
+Proof.
+  induction l as [|x l IH]; [reflexivity|].
+  cbn [rev]. rewrite fold_left_app, IH. cbn [fold_left fwd_fill map first_nonempty].
+  unfold str_or. destruct (f_for x), (f_host x), (f_proto x); reflexivity.
+Qed.
+
+Definition fwd_precond (s : pst) : Prop :=
+  opt_truthy (fwd s) = true -> lookup k_fwd (env s) <> None.
+
+Lemma blk_forwarded_no_exn k s : fwd_precond s -> no_exn (blk_forwarded k s).
+Proof.
+  intros Hp e. unfold blk_forwarded. destruct (fwd s) as [[|c f]|] eqn:Ef; try discriminate.
+  assert (Hl : lookup k_fwd (env s) <> None) by (apply Hp; rewrite Ef; reflexivity).
+  destruct (mapM fwd_element (split (c :: f) [c_comma])) as [ps| |] eqn:Em; simpl.
+  - destruct (fold_left fwd_fill _ _) as [[a b] d]. discriminate.
+  - discriminate.
+  - destruct (lookup k_fwd (env s)); [discriminate|congruence].
+Qed.
+
+Lemma blk_forwarded_malformed k s h : blk_forwarded k s = Malformed h -> h = h_fwd.
+Proof.
+  unfold blk_forwarded. destruct (fwd s) as [[|c f]|]; try discriminate.
+  destruct (mapM fwd_element (split (c :: f) [c_comma])) as [ps| |] eqn:Em; simpl.
+  - destruct (fold_left fwd_fill _ _) as [[a b] d]. discriminate.
+  - intros _. exfalso. eapply mapM_no_malformed; eauto using fwd_element_no_malformed.
+  - destruct (lookup k_fwd (env s)); [|discriminate]. intro H. injection H as <-. reflexivity.
+Qed.
+
+Lemma blk_forwarded_ok k s s' : blk_forwarded k s = Ok s' ->
+  (s' = s /\ opt_truthy (fwd s) = false) \/
+  (exists raw ps, fwd s = Some raw /\ truthy raw = true /\
+     mapM fwd_element (split raw [c_comma]) = Ok ps /\
+     s' = {| env := set k_fwd (strip (join [c_comma] (py_lastk (split raw [c_comma]) k))) (env s);
+             client := match first_nonempty (map f_for (py_lastk ps k)) with [] => client s | x => Some x end;
+             fhost := match first_nonempty (map f_host (py_lastk ps k)) with [] => f_host (last ps fwd_empty) | x => x end;
+             fproto := match first_nonempty (map f_proto (py_lastk ps k)) with [] => f_proto (last ps fwd_empty) | x => x end;
+             fport := []; fwd := fwd s; unt := unt s |}).
+Proof.
+  unfold blk_forwarded. destruct (fwd s) as [[|c f]|] eqn:Ef;
+    try (intro H; injection H as <-; left; split; reflexivity).
+  intro H. right. exists (c :: f).
+  destruct (mapM fwd_element (split (c :: f) [c_comma])) as [ps| |] eqn:Em; simpl in H.
+  - exists ps. rewrite fwd_fill_fold in H. injection H as <-. repeat split; reflexivity.
+  - discriminate.
+  - destruct (lookup k_fwd (env s)); discriminate.
+Qed.
+
+(* ---- writing the selection into the environ ------------------------------------------ *)
+Lemma stage_proto_no_exn s : no_exn (stage_proto s).
+Proof.
+  intro e. unfold stage_proto. cbv zeta. destruct (truthy (fproto s)); [|discriminate].
+  destruct (negb (_ || _)); discriminate.
+Qed.
+
+Lemma stage_proto_ok s s' : stage_proto s = Ok s' ->
+  client s' = client s /\ fhost s' = fhost s /\ fwd s' = fwd s /\ unt s' = unt s /\
+  ((s' = s /\ fproto s = []) \/
+   (fproto s <> [] /\ cat_scheme (fproto s) = false /\ fproto s' = lower_latin1 (fproto s) /\
+    env s' = set k_url_scheme (lower_latin1 (fproto s)) (env s))).
+Proof.
+  unfold stage_proto. cbv zeta. destruct (truthy (fproto s)) eqn:Et.
+  - destruct (negb (beqb (lower_latin1 (fproto s)) s_http || beqb (lower_latin1 (fproto s)) s_https)) eqn:En; [intro; discriminate|].
+    intro H. injection H as <-. cbn. repeat split; auto. right.
+    repeat split; auto.
+    + apply truthy_true. exact Et.
+    + unfold cat_scheme. rewrite Et. change t_http with s_http.
+      change t_https with s_https. rewrite En. reflexivity.
+  - intro H. injection H as <-. repeat split; auto. left. split; auto. apply truthy_false. exact Et.
+Qed.
+
+Lemma stage_proto_malformed s h : stage_proto s = Malformed h ->
+  cat_scheme (fproto s) = true /\ h = if opt_truthy (fwd s) then h_fwd_proto else h_xfproto.
+Proof.
+  unfold stage_proto. cbv zeta. destruct (truthy (fproto s)) eqn:Et; [|discriminate].
+  destruct (negb (beqb (lower_latin1 (fproto s)) s_http || beqb (lower_latin1 (fproto s)) s_https)) eqn:En; [|discriminate].
+  intro H. injection H as <-. split; auto. unfold cat_scheme. rewrite Et.
+  change t_http with s_http.
+  change t_https with s_https. rewrite En. reflexivity.
+Qed.
+
+Lemma stage_proto_scheme s : cat_scheme (fproto s) = true -> exists h, stage_proto s = Malformed h.
+Proof.
+  unfold cat_scheme, stage_proto. cbv zeta. destruct (truthy (fproto s)); [|discriminate]. cbn [andb].
+  change t_http with s_http.
+  change t_https with s_https.
+  intros ->. eauto.
+Qed.
+
+Definition has_key (k : str) (e : environ) : Prop := lookup k e <> None.
+
+Lemma has_key_set k k2 v e : has_key k e -> has_key k (set k2 v e).
+Proof. unfold has_key. rewrite lookup_set. destruct (beqb k k2); [discriminate|auto]. Qed.
+
+Lemma stage_proto_has_key k s s' : stage_proto s = Ok s' -> has_key k (env s) -> has_key k (env s').
+Proof.
+  intros H Hk. apply stage_proto_ok in H as (_ & _ & _ & _ & [[-> _]|(_ & _ & _ & ->)]); auto.
+  apply has_key_set. exact Hk.
+Qed.
+
+Lemma stage_host_no_exn s : has_key k_url_scheme (env s) -> no_exn (stage_host s).
+Proof.
+  intros Hk e. unfold stage_host. cbv zeta. destruct (truthy (fhost s)) eqn:Et; [|discriminate].
+  destruct (last_opt_truthy _ Et) as [l ->].
+  destruct (has_char c_colon (fhost s) && negb (l =? c_rbr)) eqn:Ec.
+  - apply andb_true_iff in Ec as [Ec _]. unfold has_char in Ec.
+    rewrite (rsplit1_has _ _ Ec). discriminate.
+  - assert (Hk2 : has_key k_url_scheme (set k_http_host (fhost s) (set k_server_name (fhost s) (env s))))
+      by (do 2 apply has_key_set; exact Hk).
+    unfold has_key in Hk2.
+    destruct (truthy (fport s)); [|cbn [bind]; discriminate].
+    destruct (negb (beqb (fport s) s_443 || beqb (fport s) s_80)); [cbn [bind]; discriminate|].
+    destruct (beqb (fport s) s_80).
+    + destruct (lookup k_url_scheme _); [|congruence]. destruct (negb (beqb _ _)); cbn [bind]; discriminate.
+    + destruct (lookup k_url_scheme _); [|congruence]. destruct (negb (beqb _ _)); cbn [bind]; discriminate.
+Qed.
+
+Lemma stage_host_no_malformed s h : stage_host s <> Malformed h.
+Proof.
+  unfold stage_host. cbv zeta. destruct (truthy (fhost s)); [|discriminate].
+  destruct (last_opt (fhost s)); [|discriminate].
+  destruct (has_char c_colon (fhost s) && negb (n =? c_rbr)).
+  - destruct (rsplit1 (fhost s) [c_colon]) as [|a [|b [|c l]]]; discriminate.
+  - destruct (truthy (fport s)); [|cbn [bind]; discriminate].
+    destruct (negb (beqb (fport s) s_443 || beqb (fport s) s_80)); [cbn [bind]; discriminate|].
+    destruct (beqb (fport s) s_80); destruct (lookup k_url_scheme _); cbn [bind]; try discriminate;
+      destruct (negb (beqb _ _)); cbn [bind]; discriminate.
+Qed.
+
+(* the host stage only writes SERVER_NAME and HTTP_HOST and leaves the client alone *)
+Lemma stage_host_ok s s' : stage_host s = Ok s' ->
+  client s' = client s /\ fwd s' = fwd s /\ unt s' = unt s /\ fproto s' = fproto s /\
+  (forall key, beqb key k_server_name = false -> beqb key k_http_host = false ->
+               lookup key (env s') = lookup key (env s)) /\
+  (fhost s = [] -> s' = s) /\
+  (fhost s <> [] -> lookup k_server_name (env s') = Some (strip (host_text (fhost s))) \/
+                    lookup k_server_name (env s') = Some (fhost s) /\ has_port (fhost s) = false).
+Proof.
+  unfold stage_host. cbv zeta. destruct (truthy (fhost s)) eqn:Et.
+  2:{ intro H. injection H as <-. repeat split; auto. intro Hn. apply truthy_false in Et. congruence. }
+  destruct (last_opt (fhost s)) as [l|] eqn:El; [|discriminate].
+  assert (Hne : fhost s <> []) by (apply truthy_true; exact Et).
+  assert (Hhp : has_port (fhost s) = has_char c_colon (fhost s) && negb (l =? c_rbr)).
+  { unfold has_port, ends_with_char. rewrite El. reflexivity. }
+  destruct (has_char c_colon (fhost s) && negb (l =? c_rbr)) eqn:Ec.
+  - pose proof Ec as Ec'. apply andb_true_iff in Ec' as [Ec' _]. unfold has_char in Ec'.
+    rewrite (rsplit1_has _ _ Ec'). intro H. injection H as <-. cbn.
+    repeat split; auto.
+    + intros key H1 H2. rewrite !lookup_set, H1, H2. reflexivity.
+    + congruence.
+    + intros _. left. rewrite lookup_set_other by keq. rewrite lookup_set_same.
+      unfold host_text. rewrite Hhp. reflexivity.
+  - intro H. apply bind_ok in H as (e3 & He3 & H). injection H as <-. cbn.
+    assert (Hfr : forall key, beqb key k_server_name = false -> beqb key k_http_host = false ->
+                  lookup key e3 = lookup key (env s)).
+    { intros key H1 H2.
+      assert (Ha : lookup key (set k_http_host (fhost s) (set k_server_name (fhost s) (env s))) = lookup key (env s))
+        by (rewrite !lookup_set, H1, H2; reflexivity).
+      assert (Hb : lookup key (set k_http_host (host_colon_port (fhost s) (fport s))
+                      (set k_http_host (fhost s) (set k_server_name (fhost s) (env s)))) = lookup key (env s))
+        by (rewrite !lookup_set, H1, H2; reflexivity).
+      destruct (truthy (fport s)); [|injection He3 as <-; exact Ha].
+      destruct (negb (beqb (fport s) s_443 || beqb (fport s) s_80)); [injection He3 as <-; exact Hb|].
+      destruct (beqb (fport s) s_80); destruct (lookup k_url_scheme _); try discriminate;
+        destruct (negb (beqb _ _)); injection He3 as <-; auto. }
+    repeat split; auto.
+    + congruence.
+    + intros _. right. split; [|exact Hhp].
+      assert (Ha : lookup k_server_name (set k_http_host (fhost s) (set k_server_name (fhost s) (env s))) = Some (fhost s))
+        by (rewrite lookup_set_other by keq; apply lookup_set_same).
+      assert (Hb : lookup k_server_name (set k_http_host (host_colon_port (fhost s) (fport s))
+                      (set k_http_host (fhost s) (set k_server_name (fhost s) (env s)))) = Some (fhost s))
+        by (rewrite lookup_set_other by keq; exact Ha).
+      destruct (truthy (fport s)); [|injection He3 as <-; exact Ha].
+      destruct (negb (beqb (fport s) s_443 || beqb (fport s) s_80)); [injection He3 as <-; exact Hb|].
+      destruct (beqb (fport s) s_80); destruct (lookup k_url_scheme _); try discriminate;
+        destruct (negb (beqb _ _)); injection He3 as <-; auto.
+Qed.
+
+Lemma stage_port_facts s :
+  client (stage_port s) = client s /\ fwd (stage_port s) = fwd s /\ unt (stage_port s) = unt s /\
+  (forall key, beqb key k_server_port = false -> lookup key (env (stage_port s)) = lookup key (env s)).
+Proof.
+  unfold stage_port. destruct (truthy (fport s)); cbn; repeat split; auto.
+  intros key H. rewrite lookup_set, H. reflexivity.
+Qed.
+
+(* ---- the client stage: where F19 lives --------------------------------------------------- *)
+Lemma strip_brackets_spec a :
+  strip_brackets a = match a with [] => Exn IndexError | _ => Ok (unbracket a) end.
+Proof.
+  unfold strip_brackets, unbracket, ends_with_char. destruct a as [|x a]; [reflexivity|].
+  cbn [first_opt]. change c_lbr with lbr. change c_rbr with rbr.
+  destruct (x =? lbr); [|reflexivity].
+  destruct (last_opt_truthy (x :: a) eq_refl) as [l ->]. simpl.
+  destruct (l =? rbr); reflexivity.
+Qed.
+
+Lemma stage_client_spec s :
+  stage_client s =
+  match client s with
+  | Some (c0 :: c') =>
+    let c := c0 :: c' in
+    if bad_client c then Exn IndexError
+    else
+      let e1 := set k_remote_addr (unbracket (addr_text c)) (env s) in
+      let e2 := match port_text c with Some p => set k_remote_port p e1 | None => e1 end in
+      Ok {| env := set k_remote_host (unbracket (addr_text c)) e2; client := client s; fhost := fhost s;
+            fproto := fproto s; fport := fport s; fwd := fwd s; unt := unt s |}
+  | _ => Ok s
+  end.
+Proof.
+  unfold stage_client. destruct (client s) as [[|c0 c']|]; try reflexivity.
+  set (c := c0 :: c'). cbv zeta.
+  destruct (last_opt_truthy c eq_refl) as [l Hl]. rewrite Hl.
+  assert (Hhp : has_port c = has_char c_colon c && negb (l =? c_rbr)).
+  { unfold has_port, ends_with_char. rewrite Hl. reflexivity. }
+  unfold bad_client, addr_text, port_text. rewrite Hhp. change (truthy c) with true. cbn [andb].
+  destruct (has_char c_colon c && negb (l =? c_rbr)) eqn:Ec.
+  - pose proof Ec as Ec'. apply andb_true_iff in Ec' as [Ec' _]. unfold has_char in Ec'.
+    rewrite (rsplit1_has _ _ Ec'). change c_colon with colon.
+    rewrite strip_brackets_spec. destruct (strip (before_last colon c)) eqn:Ea; [reflexivity|].
+    cbn [bind truthy negb]. rewrite lookup_set_other by keq. rewrite lookup_set_same. reflexivity.
+  - rewrite strip_brackets_spec. destruct (strip c) eqn:Ea; [reflexivity|].
+    cbn [bind truthy negb]. rewrite lookup_set_same. reflexivity.
+Qed.
